@@ -863,12 +863,24 @@ class Builder:
             f0 = api["files"][-1]
             defs = []
             for i in range(self.d(st.integers(0, 2))):
-                t = f"{host}/" + ["Warehouse", "Depot"][i]
-                pat = [f"warehouses/{{warehouse}}", f"projects/{{project}}/depots/{{depot=**}}"][i]
+                t = "lib.acme.com/" + ["Warehouse", "Depot"][i]
+                # the same type name carries different patterns from one generated API to the next (a generator process
+                # sees many requests: nothing about a type may be remembered between them)
+                pat = self.d(st.sampled_from([[f"warehouses/{{warehouse}}", f"regions/{{region}}/warehouses/{{warehouse}}", f"projects/{{project}}/warehouses/{{warehouse}}"],
+                                              [f"projects/{{project}}/depots/{{depot=**}}", f"depots/{{depot}}", f"shelves/{{shelf}}/depots/{{depot}}"]][i]))
                 defs.append({"type": t, "patterns": [pat]})
                 self.resources.append({"type": t, "patterns": [pat], "msg_full": None})
             if defs:
                 f0["resource_definitions"] = defs
+                # every definition is referenced from a request message (that is what makes it visible to a service)
+                inputs = {m["input"] for _f, _s, m in M.all_methods(api)}
+                reqs = [m for f in api["files"] for full, m, _ in M.walk_messages(f) if "." + full in inputs]
+                for dfn in defs:
+                    if reqs:
+                        tgt = self.d(st.sampled_from(reqs))
+                        nm = dfn["type"].rsplit("/", 1)[-1].lower() + "_name"
+                        if all(x["name"] != nm for x in tgt["fields"]):
+                            tgt["fields"].append({"name": nm, "number": _free_number(tgt["fields"]), "type": "string", "ref": {"type": dfn["type"]}})
         # resource references on string fields (after all resources are known)
         if self.resources:
             for f in api["files"]:
